@@ -6,3 +6,4 @@ import Helm.Props.C03
 #print axioms Helm.Props.C03.upgrade_failure_contained_instance
 #print axioms Helm.Props.C03.atomic_upgrade_restores_instance
 #print axioms Helm.Props.C03.atomic_install_leaves_nothing_instance
+#print axioms Helm.Props.C03.failure_paths_skeleton
